@@ -1,7 +1,5 @@
 //! Two-way string matching on steroids.
 
-use std::cmp::max;
-
 use memchr_rs::memchr;
 
 const SIMD_THRESHOLD: usize = 16;
@@ -67,12 +65,14 @@ pub fn find(haystack: &str, needle: &str) -> Option<usize> {
         return None;
     }
 
-    let (crit, period) = crit_period(n);
+    let (crit, _) = crit_period(n);
     let anchor = n[crit];
 
+    // `offset` is where the next anchor byte is looked for; a match starting at
+    // `s` has its anchor at `s + crit`, so the scan has to cover the whole haystack.
     let mut offset = 0;
 
-    while offset + nlen <= hlen {
+    while offset < hlen {
         let index = memchr(anchor, h, offset);
         if index >= hlen {
             return None;
@@ -88,8 +88,9 @@ pub fn find(haystack: &str, needle: &str) -> Option<usize> {
             return Some(start);
         }
 
-        let shift = max(1, period);
-        offset = start.saturating_add(shift);
+        // Every occurrence of the anchor byte is a candidate; skipping by the
+        // period of the needle relative to `start` can revisit or jump over one.
+        offset = index + 1;
     }
 
     None
@@ -100,7 +101,7 @@ fn maximal_suffix(x: &[u8], rev: bool) -> (usize, usize) {
     let n = x.len();
     let (mut i, mut j, mut k, mut p) = (0, 1, 1, 1);
 
-    while j + k <= n {
+    while j + k < n {
         let ap = x[i + k];
         let a = x[j + k];
         if (a < ap && !rev) || (a > ap && rev) {
